@@ -175,6 +175,34 @@ def run(rep: vlib.Reporter, tier: str, seed: int) -> None:
         found = True
     dist["flight_store_atomicity"] = {"problems": len(fa), **getattr(flight_atomic.check, "stats", {})}
     n_eval += getattr(flight_atomic.check, "stats", {}).get("gets", 0)
+    # WIDE requests: many independent sources, i.e. many compute-framework objects / worker processes at once (more than twice the
+    # number of CPUs): every mode must end and return the same tables (termination for every plan: C04_no_deadlock)
+    import os as _os
+    for n_wide in ([max(40, 2 * (_os.cpu_count() or 8) + 8), 72] if big else [max(40, 2 * (_os.cpu_count() or 8) + 8)]):
+        wspec = {"groups": [{"name": f"R{i}", "kind": "root", "cfw": ["PyArrowTable", "PandasDataFrame", "PythonDictFramework"][i % 3],
+                             "cols": {f"w{i}": [i, i + 1, 2 * i]}} for i in range(n_wide)],
+                 "request": [f"w{i}" for i in range(n_wide)], "family": "wide"}
+        wres: Dict[str, Any] = {}
+        for mname, mode in (("SYNC", ParallelizationMode.SYNC), ("THREADING", ParallelizationMode.THREADING),
+                            ("MULTIPROCESSING", ParallelizationMode.MULTIPROCESSING)):
+            wuni = Universe(wspec, GateListener())
+            kw_ = {"flight_server": fs} if mname == "MULTIPROCESSING" else {}
+            wo = run_observed(wuni.prepare(), modes={mode}, timeout=90, **kw_)
+            n_eval += 1
+            wres[mname] = (wo["status"], canon_result(wo["result"]) if wo["status"] == "ok" else str(wo.get("exc"))[-160:])
+            wuni.dispose()
+        rep.nontrivial(("wide", n_wide))
+        dist.setdefault("wide_requests", []).append({"sources": n_wide, **{k: v[0] for k, v in wres.items()}})
+        for mname in ("THREADING", "MULTIPROCESSING"):
+            if wres["SYNC"][0] == "ok" and wres[mname] != wres["SYNC"]:
+                rep.finding(f"wide:{n_wide}:{mname}", f"request over {n_wide} independent sources ({n_wide} compute-framework objects): {mname} "
+                            f"{'did not return within 90 s' if wres[mname][0] == 'hang' else 'ended with ' + wres[mname][0]}"
+                            f"{'' if wres[mname][0] != 'ok' else ' and other tables than SYNC'} (SYNC returned {n_wide} tables)",
+                            {"kind": "wide", "spec": wspec, "mode": mname, "outcome": wres[mname][0]})
+                found = True
+        if wres["SYNC"][0] != "ok":
+            rep.finding(f"wide:{n_wide}:SYNC", f"request over {n_wide} independent sources: SYNC run {wres['SYNC']}", {"kind": "wide", "spec": wspec})
+            found = True
     # one polymorphic Link used by two concrete pairs: SYNC vs gated THREADING (harness/polylink.py; recorded finding)
     from harness import polylink
     found |= polylink.check(rep, "C06")
